@@ -656,13 +656,14 @@ theorem stepCore_inv2 {s t : CS} {e : Ev} (h : stepCore s e = some t) (hi : Inv2
     split at h
     · obtain ⟨-, rfl⟩ := guard_eq_some.1 h
       exact hi.of_eq rfl rfl rfl rfl rfl rfl rfl rfl (fun _ h => h)
-    · obtain ⟨hg, rfl⟩ := guard_eq_some.1 h
-      simp only [Bool.and_eq_true, Bool.not_eq_true', decide_eq_true_eq] at hg
-      obtain ⟨⟨⟨-, hact⟩, hnp⟩, -⟩ := hg
-      refine ⟨?_, ?_, ?_, ?_, hi.fresh, hi.freshConn, hi.disc, hi.pend, hi.main⟩
-      · intro _; exact ⟨rfl, rfl, hnp⟩
+    · -- the connect that held the lock returns (also out of a pending attempt once CLOSED):
+      -- nothing of an attempt is left, `implPending` is cleared by the update
+      obtain ⟨-, rfl⟩ := guard_eq_some.1 h
+      refine ⟨?_, ?_, ?_, ?_, hi.fresh, hi.freshConn, hi.disc, ?_, hi.main⟩
+      · intro _; exact ⟨rfl, rfl, rfl⟩
       · intro c hc; cases hc
-      · intro _; rfl
+      · intro hc; cases hc
+      · intro hc; cases hc
       · intro hc; cases hc
   | implStart =>
     simp only [stepCore] at h
